@@ -317,7 +317,8 @@ end transformers
 /-! ### End to end -/
 
 /-- Every template of the rule in which `from_route_rule` / `get_target` substitute. -/
-def templates (r : Rule) : List Str := r.target.toList ++ r.headerFilters ++ r.bodyFilters
+def templates (r : Rule) : List Str :=
+  r.target.toList ++ r.headerFilters ++ r.bodyFilters ++ r.htmlFilters.flatMap fun f => [f.1, f.2.getD f.1]
 
 /-- **outcome_eq_spec.**  Location, `get_target`, custom header-filter values and body-filter contents are the
 simultaneous substitution of the rule's variable list (markers through their transformers, or the explicit
@@ -339,7 +340,19 @@ theorem outcome_eq_spec (cf : CaseFns) (r : Rule) (probe : Str) (captured : List
         r.bodyFilters.map (fun t => subst (r.variablesUnsorted cf captured q) t) :=
       List.map_congr_left fun t ht => key t (by simp [templates, ht])
     simp only [List.flatMap_def, this]
-  rw [h1, h2]
+  have h3 : r.htmlFilters.map (fun f => (replaceVars f.1 (r.vars cf captured q), replaceVars (f.2.getD f.1) (r.vars cf captured q))) =
+      r.htmlFilters.map (fun f => (subst (r.variablesUnsorted cf captured q) f.1,
+        subst (r.variablesUnsorted cf captured q) (f.2.getD f.1))) := by
+    apply List.map_congr_left
+    intro f hf
+    have hm1 : f.1 ∈ templates r := by
+      simp only [templates, List.mem_append, List.mem_flatMap]
+      right; exact ⟨f, hf, by simp⟩
+    have hm2 : f.2.getD f.1 ∈ templates r := by
+      simp only [templates, List.mem_append, List.mem_flatMap]
+      right; exact ⟨f, hf, by simp⟩
+    rw [key _ hm1, key _ hm2]
+  rw [h1, h2, h3]
   cases ht : r.target with
   | none => rfl
   | some t =>
